@@ -23,7 +23,8 @@ META = {
         "an attribute that is committed back must not also seed the value "
         "that is committed (append-only feedback). Not decided: arbitrary "
         "operation sequences as such."
-        ' Also: module-level / class-level containers are not mutated (GLOBALS), parse_tracts forwards as given, seed guard, commit guards incl. early returns, Config reader keeps explicit False.'),
+        ' Also: module-level / class-level containers are not mutated (GLOBALS), parse_tracts forwards as given, seed guard, commit guards incl. early returns, Config reader keeps explicit False.'
+        ' Round 7: parse() is not skipped because of parse_complete; parse()/preprocess() write no setting and grow no result list in place; TractParser seeding cannot be missing.'),
     'families': ['GLOBALS', 'COMMIT', 'FRESH', 'TBL', 'FORWARD', 'DEADPARAM', 'SIB-DEFAULTS'],
 }
 
